@@ -76,6 +76,16 @@ theorem start_before_begin (pre post : List Ev) (o l : Nat)
   have := (step_begin hm').2; subst this
   exact (no_start_after_started hrest (by simp)).1
 
+/-- stream-start occurs exactly once in any trace that delivers a packet at all -/
+theorem start_exactly_once (o l : Nat) (hb : Ev.beginPkt o l ∈ evss.flatten) :
+    evss.flatten.count .start = 1 := by
+  obtain ⟨pre, post, hs⟩ := List.append_of_mem hb
+  have hmem : Ev.start ∈ evss.flatten := by
+    rw [hs]; exact List.mem_append_left _ (start_before_begin h hr pre post o l hs).1
+  have h1 := start_at_most_once h hr
+  have h2 : 0 < evss.flatten.count .start := List.count_pos_iff.mpr hmem
+  omega
+
 /-- continuation data and packet-end occur only while a packet opened by packet-begin is open:
 the nearest preceding non-continuation callback is a packet-begin -/
 theorem data_and_end_only_while_open (pre post : List Ev) (e : Ev)
@@ -164,7 +174,7 @@ theorem unrecognised_header_not_delivered_run (f f' : F) (p : Bytes) (ps : List 
   obtain ⟨_, he⟩ := run_inv hall hr
   simp only [runPure, List.cons.injEq] at he
   obtain ⟨rfl, rfl⟩ := he
-  have ⟨hst, hnc⟩ := unrecognised_header_not_delivered f _ p _ hp (consume_eq f p hp) hus hnb
+  have ⟨hst, hnc⟩ := unrecognised_header_not_delivered f _ p _ hp (consume_eq' f p hp) hus hnb
   have hacc := runPure_accepts (stepOf f p).1 ps
   rw [hsplit] at hacc
   obtain ⟨m, hm, _⟩ := accepts_append_some hacc
@@ -202,7 +212,7 @@ theorem unrecognised_header_not_delivered_anywhere (pre : List Bytes) (p : Bytes
     · exact hp
     · exact hps q hq
   exact unrecognised_header_not_delivered_run (runPure {} pre).1 _ p ps _ _ hp hps
-    (run_eq _ (p :: ps) hall') hus hnb mid rest hsplit hmid
+    (run_eq' _ (p :: ps) hall') hus hnb mid rest hsplit hmid
 
 /-! ### exactly when `begin_packet` is delivered, and with which bytes -/
 
@@ -291,13 +301,8 @@ def runOld (f : F) : List Bytes → R (F × List (List Ev))
     let (f2, e2) ← runOld f1 ps
     pure (f2, e1 :: e2)
 
-/-- a concrete transport packet: sync byte, flags byte `b1` (0x40 = unit start), PID low byte 0,
-byte 3 `b3` (0x10 = payload only, low nibble = continuity counter), payload prefix `pay`, stuffing -/
-def mkPkt (b1 b3 : UInt8) (pay : List UInt8) : Bytes :=
-  [0x47, b1, 0x00, b3] ++ pay ++ List.replicate (184 - pay.length) 0xff
-
-/-- a PES header start: `00 00 01`, stream id `e0`, length 0 -/
-def pesStart : List UInt8 := [0, 0, 1, 0xe0, 0, 0]
+/-! concrete packets: `mkPkt b1 b3 pay` = `47 b1 00 b3 pay… ff…` (188 bytes; `b1 = 0x40` unit start,
+`b3 = 0x10 + counter` payload only), `pesStart = 00 00 01 e0 00 00` (see `Ts.Lemmas.C08`) -/
 
 /-- **F1a** (pre-fix): `[no unit start, cc=0] [no unit start, cc=5] [unit start, good header, cc=6]`
 gives `ccerr, begin` — `begin_packet` without any `start_stream`; the acceptor rejects it. -/
